@@ -2,6 +2,7 @@
 package main
 
 import (
+	"os"
 	"bytes"
 	"fmt"
 	"io"
@@ -28,10 +29,20 @@ func newWorld(x *vs.Exec) *sw.World {
 
 var allowLists = map[string][]string{"def": nil, "u2": {"u2"}, "star": {"*"}, "u1u2": {"u1", "u2"}}
 
-func allowed(allow, vuser string) bool {
+// ownerUser is the user name of the session owning the proxy ("u1"; "" for the proxy types suffixed @nouser).
+func ownerUserOf(ptype string) string {
+	if strings.HasSuffix(ptype, "@nouser") {
+		return ""
+	}
+	return "u1"
+}
+
+func allowed(allow, vuser string) bool { return allowedFor(allow, vuser, "u1") }
+
+func allowedFor(allow, vuser, ownerUser string) bool {
 	l := allowLists[allow]
 	if l == nil {
-		l = []string{"u1"} // default: only the owner's user
+		l = []string{ownerUser} // default: only the owner's user
 	}
 	for _, u := range l {
 		if u == vuser || u == "*" {
@@ -54,7 +65,20 @@ func scVisitor(ptype, allow, vuser, proxy, sign, runid string) func(x *vs.Exec) 
 	return func(x *vs.Exec) {
 		defer sw.Guard()
 		w := newWorld(x)
-		owner := w.MustLogin("owner", sw.LoginOpt{User: "u1"})
+		ownerUser := ownerUserOf(ptype)
+		ptype := strings.TrimSuffix(ptype, "@nouser")
+		var owner *sw.Peer
+		if ownerUser == "" {
+			// MustLogin would give the session a default user name
+			var err error
+			if owner, _, err = w.Login("owner", sw.LoginOpt{}); err != nil {
+				vs.Fail("setup: login: %v", err)
+				return
+			}
+			owner.AutoWork()
+		} else {
+			owner = w.MustLogin("owner", sw.LoginOpt{User: ownerUser})
+		}
 		vis := w.MustLogin("vis", sw.LoginOpt{User: vuser})
 		if r := owner.Reg(&msg.NewProxy{ProxyName: "p", ProxyType: ptype, Sk: sk, AllowUsers: allowLists[allow]}); !strings.HasPrefix(r, "ok") {
 			vs.Fail("setup: %s", r)
@@ -82,11 +106,14 @@ func scVisitor(ptype, allow, vuser, proxy, sign, runid string) func(x *vs.Exec) 
 		case "unk":
 			m.RunID = "00000000deadbeef"
 		case "owner":
-			m.RunID, effUser = owner.RunID, "u1" // claims the owner's session
+			m.RunID, effUser = owner.RunID, ownerUser // claims the owner's session
 		}
 		vs.SetInterest(true)
+		if os.Getenv("C08_DEBUG") != "" {
+			vs.Observe("DEBUG dump:\n%s", w.Dump())
+		}
 		c, e := w.Visitor("10.8.1.1:4000", m, sk)
-		want := proxy == "p" && sign == "ok" && runid != "unk" && allowed(allow, effUser)
+		want := proxy == "p" && sign == "ok" && runid != "unk" && allowedFor(allow, effUser, ownerUser)
 		if want {
 			if e != "" {
 				vs.Fail("visitor with the right key and allowed user %q was refused: %s", effUser, e)
@@ -379,6 +406,16 @@ func main() {
 							names = append(names, fmt.Sprintf("v/%s/%s/%s/%s/%s/%s", pt, al, vu, px, sg, rid))
 						}
 					}
+				}
+			}
+		}
+	}
+	// the proxy's owner has no user name: the default allow list is then "visitors without a user name"
+	for _, pt := range []string{"stcp@nouser", "sudp@nouser"} {
+		for _, al := range []string{"def", "u2", "star"} {
+			for _, vu := range []string{"u2", "u3"} {
+				for _, rid := range []string{"none", "own", "owner"} {
+					names = append(names, fmt.Sprintf("v/%s/%s/%s/p/ok/%s", pt, al, vu, rid))
 				}
 			}
 		}
